@@ -33,7 +33,7 @@ META = {
                     "functions and start of children's", "dataframe collections are not used here (pyarrow absent)"],
 }
 
-KINDS = ("array", "bag", "delayed")
+KINDS = ("array", "bag", "delayed", "dataframe")
 
 
 GC_EACH_RUN = True  # see sim/worker.run_tape
@@ -44,8 +44,15 @@ def tier_cfg(tier):
 
 
 def setup(cfg):
+    import warnings
+
+    from sim import pin
+
+    pin.setup_repo(need_dataframe=True)
     import dask.array  # noqa: F401
     import dask.bag  # noqa: F401
+
+    warnings.filterwarnings("ignore", message="Computing mixed collections")
 
 
 def base(kind, n, off=0):
@@ -60,6 +67,12 @@ def base(kind, n, off=0):
         return da.from_array(np.arange(off, off + 2 * n), chunks=2)
     if kind == "bag":
         return db.from_sequence(list(range(off, off + 2 * n)), npartitions=n)
+    if kind == "dataframe":
+        import pandas as pd
+
+        import dask.dataframe as dd
+
+        return dd.from_pandas(pd.DataFrame({"a": np.arange(off, off + 2 * n)}), npartitions=n)
     return [dask.delayed(off + i, name=f"lit-{off}-{i}") for i in range(n)]
 
 
@@ -73,6 +86,8 @@ def apply(kind, coll, tag, other=None):
         return coll.map_blocks(f, dtype=coll.dtype)
     if kind == "bag":
         return coll.map_partitions(f)
+    if kind == "dataframe":
+        return coll.map_partitions(f, meta=coll._meta)
     return [dask.delayed(f, pure=False)(c) for c in coll]
 
 
@@ -83,6 +98,8 @@ def eager(kind, coll):
         return coll.compute(scheduler="sync").tolist()
     if kind == "bag":
         return list(coll.compute(scheduler="sync"))
+    if kind == "dataframe":
+        return coll.compute(scheduler="sync")["a"].tolist()
     return list(dask.compute(*coll, scheduler="sync"))
 
 
@@ -98,7 +115,7 @@ def run_one(tape, cfg):
     with tape.span("workload"):
         scen = tape.weighted([(2, "bind_indep"), (2, "bind_dep_omit"), (2, "bind_shared_omit"), (3, "wait_on"),
                               (2, "checkpoint"), (3, "clone")], "scen")
-        kind = KINDS[tape.draw(3, "kind")]
+        kind = KINDS[(0, 0, 1, 1, 2, 2, 3)[tape.draw(7, "kind")]]   # dataframes: see known findings
         n1 = 1 + tape.draw(cfg["maxchunks"], "n1")
         n2 = n1 if kind == "array" else 1 + tape.draw(cfg["maxchunks"], "n2")
         split_every = (None, 2, 3, False)[tape.draw(4, "split")]
@@ -135,6 +152,8 @@ def run_one(tape, cfg):
                 i += len(c)
             else:
                 v = res[i]
+                if type(v).__name__ == "DataFrame":
+                    v = v["a"]
                 outv.append(v.tolist() if hasattr(v, "tolist") else list(v))
                 i += 1
         return outv
@@ -262,7 +281,8 @@ def run_one(tape, cfg):
         if isinstance(e, HarnessError):
             raise
         out.violate("manipulation_raised", f"{wl}: {type(e).__name__} at {exc_site(e)}: {e}",
-                    exc_type=type(e).__name__, scenario=scen, kind=kind)
+                    exc_type=type(e).__name__, scenario=scen, kind=kind,
+                    rebuilds_collection=scen != "checkpoint", msg_head=str(e)[:60])
     finally:
         taskfns.RUN["active"] = False
     sim = run.sim
